@@ -14,7 +14,7 @@ pub fn check(tier: Tier) -> Check {
         tier.pick(40, 600),
     )];
     let mut parts = parts;
-    parts.push(Part::new("C09/qos2", json!({"depth": tier.pick(6, 7), "flavour": 1}), 0, tier.pick(40, 300)));
+    parts.push(Part::new("C09/qos2", json!({"depth": tier.pick(6, 7), "flavour": 1, "own_rm": 20}), 0, tier.pick(40, 300)));
     // identifiers that only differ in their high byte / collide when truncated
     parts.push(Part::new("C09/qos2", json!({"depth": tier.pick(6, 7), "ids": [1, 257]}), 0, tier.pick(40, 300)));
     parts.push(Part::new("C09/qos2", json!({"depth": tier.pick(6, 7), "ids": [255, 65535]}), 0, tier.pick(40, 300)));
